@@ -175,10 +175,23 @@ def _build(it, tree, values):
 
 
 def _show(tree):
+    def txt(x):
+        return repr(x) if len(x) < 24 else '%r*%d' % (x[0], len(x)) if len(set(x)) == 1 else '%r...(%d characters)' % (x[:12], len(x))
+
     def rec(items):
-        return ''.join(repr(i[1]) if i[0] == 't' else 'NL(%d)' % i[1] if i[0] == 'l' else '<%s>%s</%s>' % (i[1], rec(i[2]), i[1])
+        if len(items) > 40:
+            return '%s ... %s (%d sdocs)' % (rec(items[:14]), rec(items[-4:]), len(items))
+        return ''.join(txt(i[1]) if i[0] == 't' else 'NL(%d)' % i[1] if i[0] == 'l' else '<%s>%s</%s>' % (i[1], rec(i[2]), i[1])
                        for i in items)
     return rec(tree)
+
+
+def _two(a, b):
+    """two texts for a message: whole when short, otherwise their lengths and the first difference"""
+    if len(a) < 200 and len(b) < 200:
+        return repr(a), repr(b)
+    i = next((i for i, (x, y) in enumerate(zip(a, b)) if x != y), min(len(a), len(b)))
+    return ('of %d characters (...%r at %d)' % (len(a), a[max(0, i - 12):i + 8], i), 'of %d characters (...%r)' % (len(b), b[max(0, i - 12):i + 8]))
 
 
 def _expected_chars(tree, state_of):
@@ -333,9 +346,11 @@ def run(repo, rep, members):
         values['N'] = lambda it: it.construct(TypeV('CommentAnnotation'), [Const('note')], {}, None)
         values['S'] = lambda it: Const('user-annotation')
         sd = _build(w.it, tree, values)
+        w.it.max_while = 4000 + 40 * len(tree)
         style = Const('<STYLE>') if style_given else NONE
         prs = w.it.explore(f, [Const('<STREAM>'), sd, style], {})
         wp = World(repo, grammar)
+        wp.it.max_while = 4000 + 40 * len(tree)
         sdp = _build(wp.it, tree, values)
         pp = wp.it.explore(plain, [Const('<STREAM>'), sdp], {})
         return w, prs, wp, pp, state_of
@@ -375,7 +390,7 @@ def run(repo, rep, members):
         ptext = ''.join(c for c, _ in pchars)
         n['f'] += 1
         rep.check(text == ptext, 'C16.f', 'plain-text-agreement', where, 'styling removed, the coloured output is the plain output',
-                  'for %s the coloured renderer writes the text %r but the plain renderer %r' % (desc, text, ptext), nontrivial=True)
+                  'for %s the coloured renderer writes the text %s but the plain renderer %s' % (desc, *_two(text, ptext)), nontrivial=True)
         if text != ptext:
             return False
         exp = _expected_chars(tree, state_of)
@@ -420,6 +435,14 @@ def run(repo, rep, members):
         toks = {'T1': distinct[i % len(distinct)], 'T2': distinct[(i + 1) % len(distinct)], 'T3': distinct[(i + 2) % len(distinct)]}
         profs = {'T1': PROFILES[i % len(PROFILES)], 'T2': PROFILES[(i // 2 + 1) % len(PROFILES)], 'T3': PROFILES[(i // 3 + 2) % len(PROFILES)]}
         judge(tree, toks, profs, 's%d' % i)
+    # streams longer (in items and in characters) than every size constant the renderers read, and than a fixed small scale
+    scaled, mined = scaled_streams(repo, ('color', 'render', 'utils'))
+    rep.note('coloured renderer: size constants read by color / render / utils: %s; %d streams scaled past them (and past 8)' % (
+        {k_: v_[:2] for k_, v_ in mined.items()} or 'none', len(scaled)))
+    for i, tree in enumerate(scaled):
+        if len(tree) > 40 and i % 5 not in (1, 3):
+            continue        # two of the four line lengths per scale
+        judge(tree, {'T1': distinct[i % len(distinct)]}, {'T1': PROFILES[i % len(PROFILES)]}, 'scaled%d' % i)
     # pairs of token styles in one rendering (styles that share some attributes must not be confused), side by side and nested
     k = 0
     for p_, q_ in itertools.permutations(PROFILES, 2):
@@ -560,6 +583,32 @@ def plain_spec(tree):
     return ''.join(out)
 
 
+def scaled_streams(repo, modules, most=9000):
+    """sdoc streams longer (in items, and in characters) than every size constant the renderer reads, plus a fixed small scale: lines
+    of several texts that end in blanks, so that a consumer cutting the stream anywhere cuts inside a line after such a text"""
+    from engine import thresholds
+    mods = []
+    for nm in modules:
+        try:
+            mods.append(repo.module(nm))
+        except AnalysisError:
+            pass
+    mined, beyond = thresholds.mine(mods, most=most)
+    out = []
+    for T in sorted(set(mined) | {8}):
+        for per_line in (4, 5, 6, 7):
+            tree = []
+            while len(tree) < T + 9:
+                tree.append(('l', 2))
+                tree.extend(('t', '%s ' % chr(97 + i)) for i in range(per_line - 2))
+                tree.append(('t', 'z'))
+            tree.append(('t', ' end  '))
+            out.append(tree)
+        # few items, many characters
+        out.append([('t', 'x' * (T + 1)), ('l', 0), ('t', 'y' * (T // 2 + 1) + ' '), ('t', 'w  '), ('l', 3), ('a', 'T1', [('t', 'k' * (T + 3))]), ('l', 0), ('t', 'tail ')])
+    return out, mined
+
+
 def plain_renderer(repo, rep, rule):
     """interprets default_render_to_stream (with as_lines, rfind_idx and whatever helpers it uses) on the scenario trees and compares
     what is written with the specification; returns the instance count"""
@@ -574,8 +623,13 @@ def plain_renderer(repo, rep, rule):
     scs = scenarios(rep.tier, rep.seed)
     scs += [[('t', 'a '), ('t', 'b'), ('t', ' '), ('a', 'N', [('t', ' ')]), ('l', 2), ('t', ' c ')], [('t', '  ')], [('l', 0), ('l', 3), ('l', 0)],
             [('t', 'x'), ('a', 'T1', [('l', 4), ('t', 'y  '), ('a', 'N', [])]), ('l', 1), ('t', ' ')]]
+    scaled, mined = scaled_streams(repo, ('render', 'utils'))
+    rep.note('plain renderer: size constants read by render / utils: %s; %d streams scaled past them (and past 8)' % (
+        {k: v[:2] for k, v in mined.items()} or 'none', len(scaled)))
+    scs += scaled
     for tree in scs:
         w = World(repo, grammar)
+        w.it.max_while = 4000 + 40 * len(tree)
         values = {k: (lambda it, k=k: Const('<token %s>' % k)) for k in ('T1', 'T2', 'T3')}
         values['N'] = lambda it: Const('<note>')
         values['S'] = lambda it: Const('user-annotation')
@@ -598,7 +652,10 @@ def plain_renderer(repo, rep, rule):
         if got == want:
             ok += 1
         else:
-            bad.append('rendering %s writes %r, expected %r' % (_show(tree), got, want))
+            i_ = next((i for i, (x, y) in enumerate(zip(got, want)) if x != y), min(len(got), len(want)))
+            bad.append('rendering %s writes %r, expected %r' % (_show(tree), got, want) if len(want) < 200 else
+                       'rendering %s writes %d characters, expected %d; first difference at character %d: %r where %r is expected' % (
+                           _show(tree), len(got), len(want), i_, got[max(0, i_ - 12):i_ + 8], want[max(0, i_ - 12):i_ + 8]))
     n = 1
     where = plain.where
     if bad:
